@@ -25,10 +25,17 @@ var prodStored = [][]string{
 	{"max-age=10", `no-cache="X-Extra"`, "stale-while-revalidate=30"}, {"max-age=10", `no-cache="X-Extra"`, "stale-if-error=30"},
 	{"public"}, {"max-age=10", "private"}, {"max-age=10", "public", "must-revalidate", "no-cache"}, {"max-age=10", "immutable", "stale-while-revalidate=30"},
 	{"max-age=10", "must-revalidate", "stale-while-revalidate=30", "stale-if-error=30"},
+	// repeated directives: the first occurrence of a value counts (or the response
+	// is stale), and the two forms of no-cache add up
+	{"max-age=10", "no-cache", `no-cache="X-Extra"`}, {"max-age=10", `no-cache="X-Extra"`, "no-cache", "stale-while-revalidate=30"},
+	{"max-age=0", "max-age=3600"}, {"max-age=10", `no-cache="X-Extra"`, `no-cache="X-Extra2"`},
+	// a qualified no-cache that names the cache's own fields
+	{"max-age=10", `no-cache="Age, X-Httpcache-Status, X-From-Cache"`, "stale-while-revalidate=30", "stale-if-error=30"},
 }
 
 var prodReq = []string{"", "no-cache", "max-age=0", "max-age=5", "max-age=100", "max-stale", "max-stale=5", "min-fresh=5", "only-if-cached",
-	"only-if-cached, no-cache", "only-if-cached, max-stale", "max-age=5, max-stale=10", "no-cache, max-stale", "only-if-cached, max-age=0", "stale-if-error=30", "only-if-cached, min-fresh=5", "max-age=0, stale-if-error=30", "max-age=5, stale-if-error=30"}
+	"only-if-cached, no-cache", "only-if-cached, max-stale", "max-age=5, max-stale=10", "no-cache, max-stale", "only-if-cached, max-age=0", "stale-if-error=30", "only-if-cached, min-fresh=5", "max-age=0, stale-if-error=30", "max-age=5, stale-if-error=30",
+	"max-age=0, max-age=100"}
 var prodValidators = []string{"none", "etag", "lm", "both"}
 var prodAges = []string{"fresh", "just-stale", "long-stale"}
 var prodAnswers = []string{"304", "304+", "200", "404", "500", "503", "err"}
@@ -91,7 +98,7 @@ func TestProductC11(t *testing.T) { prodPart(t, "C11") }
 func TestProductC18(t *testing.T) { prodPart(t, "C18") }
 
 func prodRun(r *run.Runner, prop string, c prodCase) {
-	stored := RespSpec{Status: 200, CC: []string{strings.Join(c.Stored, ", ")}, BodySize: 12, Extra: map[string][]string{"X-Extra": {"x"}}, Date: c.DateSkew, DelayS: c.DelayS}
+	stored := RespSpec{Status: 200, CC: []string{strings.Join(c.Stored, ", ")}, BodySize: 12, Extra: map[string][]string{"X-Extra": {"x"}, "X-Extra2": {"y"}}, Date: c.DateSkew, DelayS: c.DelayS}
 	if c.OriginAge != "" {
 		stored.Age = []string{c.OriginAge}
 	}
